@@ -150,7 +150,26 @@ def run_for_property(prop, res):
         raise AnalysisError('self-test variants did not behave as recorded: ' + '; '.join(f"{r['id']}: {r['detail']}" for r in failed[:5]))
 
 
+def run_silent_everywhere(jobs=16, base_root=None):
+    """Every behaviour-preserving variant against EVERY claimed property (not only the ones it was written for)."""
+    base_root = str(base_root or repo_root())
+    man = json.load(open(pathlib.Path(HERE).parent / 'MANIFEST.json'))
+    allp = [c['property_id'] for c in man['checks']]
+    cat = [dict(v, props=allp) for v in load_catalogue() if v['expect'] == 'silent']
+    with ProcessPoolExecutor(max_workers=min(jobs, len(cat))) as ex:
+        return list(ex.map(run_variant, [(v, base_root) for v in cat]))
+
+
 if __name__ == '__main__':
+    if sys.argv[1:] == ['--silent-everywhere']:
+        rs = run_silent_everywhere()
+        bad = 0
+        for r in rs:
+            if r['status'] == 'FAILED':
+                bad += 1
+                print(f"FAILED {r['id']:40s} " + '; '.join(x for x in r['detail'].split('; ') if 'silent' not in x))
+        print(f'{len(rs)} silent variants x all properties, {bad} failed')
+        sys.exit(2 if bad else 0)
     props = sys.argv[1:] or None
     rs = run(props)
     bad = 0
